@@ -426,6 +426,36 @@ class Sync:
         return atom, (pol if si == 0 else (not pol))
 
     # ------------------------------------------------------------------ one CFG element -> one event
+    def mutex_expr(self, e, depth=0):
+        """the member expression a lock argument designates: the member itself, `*member` / `*member.get()` for a mutex held
+        through a (smart) pointer, or the call of an accessor whose every return is such an expression; else None"""
+        tu = self.tu
+        e = tu.strip(e, casts=True) if e is not None else None
+        if e is None or depth > 4:
+            return None
+        k = e.get('kind')
+        if k == 'MemberExpr' and 'fi' in tu.sd(e):
+            return e
+        if k == 'UnaryOperator' and e.get('opcode') == '*':
+            return self.mutex_expr(tu.kids(e)[0], depth + 1)
+        if k == 'CXXOperatorCallExpr' and last(tu.sd(e).get('q')) in ('operator*', 'operator->'):
+            ks = tu.kids(e)
+            return self.mutex_expr(ks[1], depth + 1) if len(ks) > 1 else None
+        if k == 'CXXMemberCallExpr':
+            s_, obj, _a = tu.call_parts(e)
+            if last(s_.get('q')) == 'get' and (s_.get('rec') or '').startswith(('std::unique_ptr', 'std::shared_ptr', 'std::__shared_ptr')):
+                return self.mutex_expr(obj, depth + 1)
+            cf = tu.callee_fn(e)
+            body = tu.body(cf) if cf is not None and not cf.get('dep') else None
+            me = tu.strip(tu.kids(e)[0]) if tu.kids(e) else None
+            base_this = me is not None and me.get('kind') == 'MemberExpr' and (not tu.kids(me) or tu.is_this(tu.kids(me)[0]))
+            if body is not None and base_this:
+                rets = [x for x in tu.walk(body) if x.get('kind') == 'ReturnStmt' and tu.kids(x)]
+                ms = [self.mutex_expr(tu.kids(x)[0], depth + 1) for x in rets]
+                if ms and all(m is not None for m in ms) and len({self.field(m) for m in ms}) == 1:
+                    return ms[0]
+        return None
+
     def lock_decl(self, declstmt):
         """[(var_id, mutex_field|None, held|None, var_node)] for lock variables declared by a DeclStmt;
         held None = form not modelled (adopt_lock / try_to_lock / several mutexes)"""
@@ -447,7 +477,8 @@ class Sync:
             if not args:
                 out.append((v['id'], None, False, v))      # default-constructed unique_lock: owns nothing
                 continue
-            m = self.field(args[0])
+            mx = self.mutex_expr(args[0])
+            m = self.field(mx) if mx is not None else None
             held = True
             if len(args) == 2:
                 tag = tu.sd(tu.strip(args[1], casts=True)).get('ct', '') or ''
